@@ -14,3 +14,7 @@ add("C03", "property-based testing (Hypothesis): innermost-enclosing-span refere
     "Generated-input search over properly nested span families (ties of every kind, zero-duration events at every kind of position, arbitrary ids, permuted rows): both call-stack builders are called directly and through Trace+CallGraph on a written file; parents of positive events must equal the model's innermost container, every id appears once, children = inverse of parent, depth = #ancestors; zero-duration events are checked by a validity predicate that accepts every legal placement.",
     "Trusts the quadratic reference model in hv/gen/spans.py; families of <= 26 events, depth <= 5; thorough tier explores 16x20000 families.",
     "DESIGN.md §5 C03")
+add("C18", "property-based testing (Hypothesis): per-class predicate model + metamorphic relations (composition = sequence = intersection, idempotence, input purity)",
+    "Generated-input search over event frames (encoded / decoded names, str and object dtype, optional columns) x every filter class x parameters x compositions of 0-4 members: selected ids, order, row contents and columns equal the pure-Python predicate model; the input frame equals a deep copy taken before the call; composite == sequential application == intersection (row-local members, every drawn order); f(f(x)) == f(x).",
+    "Trusts the predicate model in hv/props/c18.py (regex match from the start of the name; documented identities for missing columns and all -1 iterations); hand-built frames of <= 12 rows.",
+    "DESIGN.md §5 C18")
